@@ -264,6 +264,11 @@ func (e *Env) Tr(x Expr) TV {
 				return e.Tr(inv.Body)
 			}
 		}
+		for _, inv := range e.File.RefInvs {
+			if inv.Name == x.Name {
+				return e.Tr(inv.Body)
+			}
+		}
 		if e.Lookup != nil {
 			if v, ok := e.Lookup(x.Name); ok {
 				return v
